@@ -44,6 +44,10 @@ CHECKS["C06"] = ("libspace", "model_checking",
    "the same library space as C05 under both refs_extension settings, formatted by import/export and by the LSP formatting request; input and output links are matched by ordinal with the independent scanner: kind and resolved destination must be unchanged and the text must follow the title-refresh rule for the note the link really resolves to",
    "trusted: as C05; titles that contain links may be compared against their old or new plain text",
    "explicit-state enumeration of the configuration space against the implementation with a reference-model oracle", "§5 C06")
+CHECKS["C13"] = ("positions", "model_checking",
+   "bounded exhaustive exploration: every document of a (preceding lines x preceding text on the line x link form x host block x line ending) alphabet, and in each every (line, UTF-16 character) position plus two lines past the end, is queried on the real server (definition, prepareRename, rename; symbols; code actions per line); answers are compared with link spans and block lines computed from pulldown-cmark's offset iterator and an own byte-offset -> UTF-16 position mapper",
+   "position == end of the link span is a don't-care; the prepareRename range must be a well-formed range inside the link span (exact destination columns are not demanded by the statement)",
+   "explicit-state enumeration of inputs x positions against the implementation with a reference-model oracle", "§5 C13")
 NOT_APPLICABLE = {}
 manifest = {
  "version": 1,
@@ -60,6 +64,7 @@ manifest = {
    {"name": "sched", "path": "/verif/mc/src/engines/sched.rs", "serves_properties": ["C11"], "kind_free_text": "hook-driven cooperative scheduler exploring all interleavings of the real LSP message loop and request workers"},
    {"name": "reqs", "path": "/verif/mc/src/engines/reqs.rs", "serves_properties": ["C12"], "kind_free_text": "drives every request of a parameter alphabet, singly and in sequences, through the real main_loop over an in-memory connection"},
    {"name": "libspace", "path": "/verif/mc/src/libspace.rs + engines/links.rs", "serves_properties": ["C05","C06"], "kind_free_text": "enumerates small libraries from a link-placement x kind x url-form alphabet and compares the real answers with an independent link scanner/resolver"},
+   {"name": "positions", "path": "/verif/mc/src/engines/positions.rs", "serves_properties": ["C13"], "kind_free_text": "sweeps every cursor position of documents with CRLF / non-ASCII prefixes through the real position-based handlers"},
    {"name": "docspace", "path": "/verif/mc/src/engines/docs.rs", "serves_properties": ["C01","C02","C03","C07"], "kind_free_text": "enumerates documents from a token alphabet / block grammar / inline grammar and runs the real formatter and server on each"},
  ],
  "checks": [],
